@@ -458,6 +458,17 @@ fn gen_string(rng: &mut Rng) -> String {
         };
         s.push(c.unwrap_or('?'));
     }
+    // NUL characters are ordinary content: leading, trailing (up to more than a word of them), nothing else
+    match rng.below(12) {
+        0 | 1 => {
+            for _ in 0..rng.range(1, 10) {
+                s.push('\0');
+            }
+        }
+        2 => s.insert(0, '\0'),
+        3 => s = "\0".repeat(rng.range(1, 17) as usize),
+        _ => {}
+    }
     s
 }
 
